@@ -11,6 +11,7 @@ focus: None = the operations C09 names (push/pop/peek/size, iteration, zip itera
 "fault" = allocating ops (new stacks, pushes, mk_filter); "iter"/"derived"/"all" = as None with
 more of the respective ops.  No `fail=` is generated."""
 import itertools
+import random
 
 FACTORS = ["0.5", "1", "1.1", "1.5", "2", "3"]
 NSLOT = 4
@@ -25,10 +26,40 @@ def pick_value(rng):
     return rng.randint(1, 99)
 
 
+
+def sparsify(rng, hist):
+    """CONVENTIONS addendum 2: a sparse-observation session — `obs=sparse` on the constructor line, the obs
+    section of every op then carries only status / out-values / callback log, and the content is swept only
+    by `observe` (every 5-15 operations and once before the final destroy)."""
+    if not hist or not hist[0].startswith("new"):
+        return hist
+    out = [hist[0] + " obs=sparse"]
+    gap = rng.randint(5, 15)
+    body = hist[1:-1] if hist[-1].startswith("destroy") else hist[1:]
+    for op in body:
+        out.append(op)
+        gap -= 1
+        if gap <= 0:
+            out.append("observe")
+            gap = rng.randint(5, 15)
+    if hist[-1].startswith("destroy"):
+        out += ["observe", hist[-1]]
+    return out
+
+
+def sparse_third(hists, seed):
+    """every third history (deterministically for small-scope lists) runs in sparse mode"""
+    r = random.Random(seed)
+    return [sparsify(r, h) if i % 3 == 1 else h for i, h in enumerate(hists)]
+
+
 class StackGen:
     name = "stack"
 
     def small_scope(self, tier, focus=None):
+        return sparse_third(self._small_scope(tier, focus), 12345)
+
+    def _small_scope(self, tier, focus=None):
         out = []
         quick = tier == "quick"
         alpha = ["push", "pop", "peek"]
@@ -70,7 +101,8 @@ class StackGen:
         return out
 
     def random(self, rng, n, tier, focus=None):
-        return [self._one(rng, focus) for _ in range(n)]
+        hs = [self._one(rng, focus) for _ in range(n)]
+        return [sparsify(rng, h) if rng.random() < 0.34 else h for h in hs]
 
     def _one(self, rng, focus):
         cap = rng.randint(1, 9)
@@ -179,6 +211,9 @@ class StackGen:
         return ops
 
     def fault_seeds(self, tier):
+        return sparse_third(self._fault_seeds(tier), 777)
+
+    def _fault_seeds(self, tier):
         return [["new cap=1 exp=2", "push 2", "push 4", "push 3", "mk_filter to=1", "push 6 o=1", "mk_new to=2 cap=1 exp=1.5",
                  "push 1 o=2", "push 2 o=2", "destroy"],
                 ["new cap=2 exp=2"] + [f"push {2 * i}" for i in range(1, 12)] + ["mk_filter to=1", "destroy"]]
